@@ -206,7 +206,7 @@ theorem join_counts (m₁ m₂ m : Mol) (p q : Nat) (h : join m₁ m₂ p q = so
       simp only [Option.some.injEq] at h
       subst h
       have a₁ := delAtom_atoms_length m₁ p hpq.1
-      have a₂ := delAtom_atoms_length m₂ q hpq.2
+      have a₂ := delAtom_atoms_length m₂ q hpq.2.1
       have c₁ := delAtom_bonds_length m₁ p
       have c₂ := delAtom_bonds_length m₂ q
       have s₁ := filter_has_split m₁.bonds p
@@ -421,5 +421,210 @@ theorem flat_counts (f : RawFrag) (m : Mol) (h : flat f = some m) :
         intro x hx
         obtain ⟨b, _, hbx⟩ := mapM_mem (bondsOf f) _ _ hb x hx
         exact (bondsOf_single f hno b x.1 x.2 hbx).1
+
+/-- every bond joins two existing atoms -/
+def WF (m : Mol) : Prop := ∀ b ∈ m.bonds, b.a1 < m.atoms.length ∧ b.a2 < m.atoms.length
+
+theorem atomIndex_lt (f : RawFrag) (id : Option String) (i : Nat) (h : atomIndex f id = some i) :
+    i < (atomNodes f).length := by
+  unfold atomIndex at h
+  have := List.mem_of_find?_eq_some h
+  simpa using this
+
+theorem bondsOf_wf (f : RawFrag) (b : RawBond) (l : List MBond) (c : Option Nat) (h : bondsOf f b = some (l, c)) :
+    ∀ x ∈ l, x.a1 < (atomNodes f).length ∧ x.a2 < (atomNodes f).length := by
+  unfold bondsOf at h
+  simp only at h
+  split at h
+  · -- B is a multi-attachment node
+    rename_i att hatt
+    cases hc : atomIndex f b.e with
+    | none => simp [hc] at h
+    | some ci =>
+      cases he : att.mapM (fun t => atomIndex f (some t)) with
+      | none => simp [hc, he] at h
+      | some ends =>
+        simp only [hc, he, Option.bind_eq_bind, Option.bind_some] at h
+        split at h
+        · simp at h
+        · simp only [Option.some.injEq, Prod.mk.injEq] at h
+          obtain ⟨hl, _⟩ := h
+          subst hl
+          intro x hx
+          simp only [List.mem_map] at hx
+          obtain ⟨t, ht, rfl⟩ := hx
+          obtain ⟨s, _, hs⟩ := mapM_mem _ att ends he t ht
+          exact ⟨atomIndex_lt f _ _ hc, atomIndex_lt f _ _ hs⟩
+  · split at h
+    · rename_i att hatt
+      cases hc : atomIndex f b.b with
+      | none => simp [hc] at h
+      | some ci =>
+        cases he : att.mapM (fun t => atomIndex f (some t)) with
+        | none => simp [hc, he] at h
+        | some ends =>
+          simp only [hc, he, Option.bind_eq_bind, Option.bind_some] at h
+          split at h
+          · simp at h
+          · simp only [Option.some.injEq, Prod.mk.injEq] at h
+            obtain ⟨hl, _⟩ := h
+            subst hl
+            intro x hx
+            simp only [List.mem_map] at hx
+            obtain ⟨t, ht, rfl⟩ := hx
+            obtain ⟨s, _, hs⟩ := mapM_mem _ att ends he t ht
+            exact ⟨atomIndex_lt f _ _ hc, atomIndex_lt f _ _ hs⟩
+    · cases hi : atomIndex f b.b with
+      | none => simp [hi] at h
+      | some i =>
+        cases hj : atomIndex f b.e with
+        | none => simp [hi, hj] at h
+        | some j =>
+          cases ht : bondType b with
+          | none => simp [hi, hj, ht] at h
+          | some t =>
+            simp [hi, hj, ht] at h
+            obtain ⟨hl, _⟩ := h
+            subst hl
+            intro x hx
+            simp only [List.mem_singleton] at hx
+            subst hx
+            exact ⟨atomIndex_lt f _ _ hi, atomIndex_lt f _ _ hj⟩
+
+
+theorem flat_wf (f : RawFrag) (m : Mol) (h : flat f = some m) : WF m := by
+  have hlen := (flat_counts f m h).1
+  unfold flat at h
+  cases ha : (atomNodes f).mapM mkAtom with
+  | none => simp [ha] at h
+  | some atoms =>
+    cases hb : f.bonds.mapM (bondsOf f) with
+    | none => simp [ha, hb] at h
+    | some bs =>
+      simp only [ha, hb, Option.bind_eq_bind, Option.bind_some, Option.some.injEq] at h
+      intro b hbm
+      rw [hlen]
+      subst h
+      simp only [List.mem_flatten, List.mem_map] at hbm
+      obtain ⟨l, ⟨x, hx, rfl⟩, hbl⟩ := hbm
+      obtain ⟨rb, _, hrb⟩ := mapM_mem (bondsOf f) _ _ hb x hx
+      exact bondsOf_wf f rb x.1 x.2 hrb b hbl
+
+theorem afterDel_lt (p i n : Nat) (hi : i < n) (hp : p < n) (hne : i ≠ p) : afterDel p i < n - 1 := by
+  unfold afterDel; split <;> omega
+
+theorem delAtom_wf (m : Mol) (p : Nat) (hp : p < m.atoms.length) (h : WF m) : WF (m.delAtom p) := by
+  intro b hb
+  rw [delAtom_atoms_length m p hp]
+  simp only [Mol.delAtom, List.mem_map, List.mem_filter] at hb
+  obtain ⟨b0, ⟨hb0, hnot⟩, rfl⟩ := hb
+  have hb0' := h b0 hb0
+  simp only [MBond.has, Bool.not_eq_true', Bool.or_eq_false_iff, beq_eq_false_iff_ne, ne_eq] at hnot
+  exact ⟨afterDel_lt p b0.a1 _ hb0'.1 hp hnot.1, afterDel_lt p b0.a2 _ hb0'.2 hp hnot.2⟩
+
+theorem other_lt (m : Mol) (h : WF m) (b : MBond) (hb : b ∈ m.bonds) (p : Nat) : b.other p < m.atoms.length := by
+  unfold MBond.other; split
+  · exact (h b hb).2
+  · exact (h b hb).1
+
+/-- joining two well-formed molecules gives a well-formed molecule: every bond of the result — the kept ones
+and the new one — joins two atoms of the result -/
+theorem join_wf (m₁ m₂ m : Mol) (p q : Nat) (h₁ : WF m₁) (h₂ : WF m₂) (h : join m₁ m₂ p q = some m) : WF m := by
+  unfold join at h
+  split at h
+  · rename_i b₁ b₂ hb₁ hb₂
+    split at h
+    · rename_i hpq
+      obtain ⟨hp, hq, ho₁, ho₂⟩ := hpq
+      simp only [Option.some.injEq] at h
+      subst h
+      have a₁ := delAtom_atoms_length m₁ p hp
+      have a₂ := delAtom_atoms_length m₂ q hq
+      have w₁ := delAtom_wf m₁ p hp h₁
+      have w₂ := delAtom_wf m₂ q hq h₂
+      have hb₁m : b₁ ∈ m₁.bonds := (List.mem_filter.mp (by rw [hb₁]; simp : b₁ ∈ m₁.bonds.filter (·.has p))).1
+      have hb₂m : b₂ ∈ m₂.bonds := (List.mem_filter.mp (by rw [hb₂]; simp : b₂ ∈ m₂.bonds.filter (·.has q))).1
+      have o₁ := afterDel_lt p (b₁.other p) _ (other_lt m₁ h₁ b₁ hb₁m p) hp ho₁
+      have o₂ := afterDel_lt q (b₂.other q) _ (other_lt m₂ h₂ b₂ hb₂m q) hq ho₂
+      intro b hb
+      simp only [List.length_append] at *
+      simp only [List.mem_append, List.mem_map, List.mem_singleton] at hb
+      rcases hb with (hb | ⟨b0, hb0, rfl⟩) | rfl
+      · have := w₁ b hb; omega
+      · have := w₂ b0 hb0
+        simp only [MBond.remap]; omega
+      · simp only; omega
+    · simp at h
+  · simp at h
+
+theorem joinNested_wf (done : List (Option Mol)) (hd : ∀ s, some s ∈ done → WF s) :
+    ∀ (ns : List RawNode) (m r : Mol), WF m → joinNested done m ns = some r → WF r
+  | [], m, r, hm, h => by
+    simp only [joinNested, Option.some.injEq] at h
+    subst h; exact hm
+  | n :: rest, m, r, hm, h => by
+    unfold joinNested at h
+    cases hn : n.nested with
+    | none =>
+      simp only [hn] at h
+      exact joinNested_wf done hd rest m r hm h
+    | some k =>
+      simp only [hn] at h
+      cases hsub : (done[k]?).join with
+      | none => simp [hsub] at h
+      | some sub =>
+        have hsubwf : WF sub := by
+          apply hd
+          cases hk : done[k]? with
+          | none => simp [hk] at hsub
+          | some o =>
+            simp [hk] at hsub
+            subst hsub
+            exact List.mem_of_getElem? hk
+        simp only [hsub, Option.bind_eq_bind, Option.bind_some] at h
+        split at h
+        · simp at h
+        · cases hap : findLabel m n.id with
+          | none => simp [hap] at h
+          | some ap =>
+            cases hsap : sub.attachmentPoints.head? with
+            | none => simp [hap, hsap] at h
+            | some sap =>
+              cases hj : join m sub ap sap with
+              | none => simp [hap, hsap, hj] at h
+              | some m' =>
+                simp only [hap, hsap, hj, Option.bind_some] at h
+                exact joinNested_wf done hd rest m' r (join_wf m sub m' ap sap hm hsubwf hj) h
+
+theorem evalFrag_wf (done : List (Option Mol)) (hd : ∀ s, some s ∈ done → WF s) (f : RawFrag) (r : Mol)
+    (h : evalFrag done f = some r) : WF r := by
+  unfold evalFrag at h
+  cases hm : flat f with
+  | none => simp [hm] at h
+  | some m =>
+    simp only [hm, Option.bind_eq_bind, Option.bind_some] at h
+    exact joinNested_wf done hd f.nodes m r (flat_wf f m hm) h
+
+theorem evalAll_wf : ∀ (fs : List RawFrag) (done : List (Option Mol)), (∀ s, some s ∈ done → WF s) →
+    ∀ s, some s ∈ evalAll fs done → WF s
+  | [], done, hd, s, hs => hd s hs
+  | f :: fs, done, hd, s, hs => by
+    unfold evalAll at hs
+    apply evalAll_wf fs (done ++ [evalFrag done f]) _ s hs
+    intro t ht
+    rcases List.mem_append.mp ht with h | h
+    · exact hd t h
+    · simp only [List.mem_singleton] at h
+      exact evalFrag_wf done hd f t h.symm
+
+/-- whatever `_parse_fragment` returns (any nesting depth): every bond joins two atoms of the molecule -/
+theorem parseFragment_wf (fs : List RawFrag) (m : Mol) (h : parseFragment fs = some m) : WF m := by
+  unfold parseFragment at h
+  cases hl : (evalAll fs []).getLast? with
+  | none => simp [hl] at h
+  | some o =>
+    simp [hl] at h
+    subst h
+    exact evalAll_wf fs [] (by simp) m (List.mem_of_getLast? hl)
 
 end Molli.Lemmas.Cdxml
